@@ -752,6 +752,45 @@ def adt_renames(doc):
     return out
 
 
+UNSIGNED = ("usize", "u8", "u16", "u32", "u64", "u128")
+
+
+def prune_trivial_switches(doc):
+    """`match n { 0..=2 => .. }` on an unsigned n compiles to `t = Le(0, n); switchInt(t)` followed
+    by the real test: the false edge of the first comparison is infeasible but gives the arm a
+    second predecessor, so no guard dominates it.  A switch on a boolean that the same block
+    computes as `0 <= x` / `x >= 0` over an unsigned type becomes a goto to its true target."""
+    n = 0
+    for b in doc.get("bodies", []):
+        for blk in b.get("blocks", []):
+            t = blk.get("term") or {}
+            if t.get("k") != "switch" or t.get("discr_ty") != "bool":
+                continue
+            d = t.get("discr") or {}
+            pl = d.get("place") or {}
+            if d.get("k") not in ("move", "copy") or pl.get("proj"):
+                continue
+            st = None
+            for s_ in reversed(blk.get("stmts", [])):
+                if s_.get("k") == "assign" and s_["place"].get("local") == pl.get("local") and not s_["place"].get("proj"):
+                    st = s_
+                    break
+            if st is None or st["rv"].get("k") != "binop":
+                continue
+            rv = st["rv"]
+            a, bb_ = rv.get("a") or {}, rv.get("b") or {}
+
+            def zero_u(o):
+                return o.get("k") == "const" and o.get("ty") in UNSIGNED and o.get("int") == 0
+            always = (rv.get("op") == "Le" and zero_u(a)) or (rv.get("op") == "Ge" and zero_u(bb_))
+            if not always:
+                continue
+            # targets: [[0, false_target]], otherwise = true target
+            blk["term"] = {"k": "goto", "target": t.get("otherwise"), "span": t.get("span")}
+            n += 1
+    return n
+
+
 def canonicalise_fn_renames(doc):
     """undo the rename of a private function: a function that is not in the pinned tree, while
     exactly one pinned function of the same impl / module with the same signature is missing, is
@@ -776,6 +815,34 @@ def canonicalise_fn_renames(doc):
         sig = [locs[0]["ty"], [locs[i]["ty"] for i in range(1, argc + 1)]]
         prefix = n.rsplit("::", 1)[0]
         cands = [m for m in missing if m.rsplit("::", 1)[0] == prefix and sigs[m] == sig and m not in taken]
+        if len(cands) == 1:
+            ren[n] = cands[0]
+            taken.add(cands[0])
+    # an associated function turned into a free function of the same module (or the reverse, or
+    # moved to another impl of that module): same name, same signature, same module
+    pmods = None
+    try:
+        pmods = set(json.load(open(os.path.join(here, "pinned_mods.json"))))
+    except OSError:
+        pmods = set()
+
+    def module_of(path):
+        segs = path.split("::")
+        best = ""
+        for k in range(1, len(segs)):
+            cand = "::".join(segs[:k])
+            if cand in pmods:
+                best = cand
+        return best
+    for n, b in sorted(cur.items()):
+        if n in sigs or n in ren or n.startswith("<"):
+            continue
+        locs = b["hdr"]["locals"]
+        argc = b.get("argc", 0)
+        sig = [locs[0]["ty"], [locs[i]["ty"] for i in range(1, argc + 1)]]
+        tail = n.rsplit("::", 1)[-1]
+        cands = [m for m in missing if m not in taken and not m.startswith("<") and m.rsplit("::", 1)[-1] == tail
+                 and sigs[m] == sig and module_of(m) == module_of(n)]
         if len(cands) == 1:
             ren[n] = cands[0]
             taken.add(cands[0])
@@ -953,14 +1020,17 @@ class Program:
         if mode:
             anonymise(doc, mode)
         if not os.environ.get("JBV_NO_CANON"):
+            prune_trivial_switches(doc)
             if doc.get("crate") == "jbonsai":
                 canonicalise_fn_renames(doc)
             canonicalise_params(doc)
             canonicalise_fields(doc)
         inl = []
         if not os.environ.get("JBV_NO_INLINE") and doc.get("crate") == "jbonsai":
-            from .inline import inline_new_helpers
+            from .inline import inline_new_helpers, desugar_effect_combinators
+            des = [] if os.environ.get("JBV_NO_DESUGAR") else desugar_effect_combinators(doc)
             inl = inline_new_helpers(doc)
+            doc["desugared"] = des
         prog = cls(doc)
         prog.inlined = inl
         return prog
